@@ -10,8 +10,9 @@ master LP by a float tableau simplex + knapsack pricing + rounding / branching):
 * min_cover        : memoised DP over remaining-demand vectors ("which column serves the first
                      still-open row?"), exact, any column set;
 * lp_bound         : exact optimum of the LP relaxation in `fractions.Fraction`, computed on the
-                     *dual* (max d.y, p.y <= 1, y >= 0; slack basis feasible, Bland's rule) - used
-                     by the checks only to *label* cases (fractional LP bound), never for a verdict;
+                     *dual* (max d.y, p.y <= 1, y >= 0; slack basis feasible, Bland's rule; constraint
+                     generation when there are many columns) - used by the checks only to *label*
+                     cases (fractional LP bound), never for a verdict;
 * second opinions  : bin packing by branch and bound over the expanded item list (cutting stock is
                      bin packing with repeated items), brute force over multisets of columns in
                      increasing cardinality, and enumeration of all vertices of the dual polytope
@@ -116,33 +117,26 @@ def min_rolls(W, sizes, demands):
 
 
 # ----------------------------------------------------------------------------- LP relaxation (exact)
-def lp_bound(columns, demands):
-    """Exact optimum (Fraction) of  min sum x, sum_p p_i x_p >= d_i, x >= 0;  None if infeasible.
+def _dual_lp(cols, dvec):
+    """max dvec.y  s.t.  c.y <= 1 for c in cols, y >= 0  (exact).  Returns (value, y) or None if unbounded.
 
-    Solved on the dual  max d.y  s.t.  p.y <= 1 for every column, y >= 0: the all-slack basis is
-    feasible because the right-hand sides are 1 > 0, so a single primal-simplex phase (Bland) does it.
-    Rows with demand 0 are dropped (their dual price can be taken as 0).
+    Condensed (Tucker) tableau: basic variables label the rows, non-basic ones the columns; T[r] = coefficients
+    of the non-basic variables + [rhs], z = reduced costs + [objective value].  The all-slack basis is feasible
+    because the right-hand sides are 1 > 0, so a single primal-simplex phase does it.  Bland's rule (no cycling).
     """
-    rows = [i for i, d in enumerate(demands) if d > 0]
-    if not rows:
-        return Fraction(0)
-    cols = sorted({tuple(c[i] for i in rows) for c in columns})
-    cols = [c for c in cols if any(c)]
-    m = len(rows)
-    for j in range(m):
-        if not any(c[j] for c in cols):
-            return None  # dual unbounded in y_j
-    k = len(cols)
-    # condensed (Tucker) tableau: basic variables label the rows, non-basic ones the columns; entry layout
-    # T[r] = coefficients of the non-basic variables + [rhs]; z = reduced costs + [objective value]
+    m, k = len(dvec), len(cols)
     T = [[Fraction(c[j]) for j in range(m)] + [Fraction(1)] for c in cols]
-    z = [Fraction(-demands[i]) for i in rows] + [Fraction(0)]
+    z = [Fraction(-d) for d in dvec] + [Fraction(0)]
     col_var = list(range(m))  # y_j
     row_var = [m + r for r in range(k)]  # slack of column r
     while True:
         cands = [j for j in range(m) if z[j] < 0]
         if not cands:
-            return z[-1]
+            y = [Fraction(0)] * m
+            for r in range(k):
+                if row_var[r] < m:
+                    y[row_var[r]] = T[r][-1]
+            return z[-1], y
         enter = min(cands, key=lambda j: col_var[j])  # Bland
         leave, ratio = None, None
         for r in range(k):
@@ -167,6 +161,42 @@ def lp_bound(columns, demands):
         z[enter] = -fct / piv
         T[leave] = prow
         col_var[enter], row_var[leave] = row_var[leave], col_var[enter]
+
+
+def lp_bound(columns, demands, direct_below=40):
+    """Exact optimum (Fraction) of  min sum x, sum_p p_i x_p >= d_i, x >= 0;  None if infeasible.
+
+    Solved on the dual  max d.y  s.t.  p.y <= 1 for every column, y >= 0.  Rows with demand 0 are dropped (their
+    dual price can be taken as 0).  With many columns (thousands of maximal patterns, massively degenerate: the
+    full tableau needed > 1000 pivots of 25 000 Fraction operations on W=20, sizes [3,1,1,1,1]) the dual is solved
+    by constraint generation: optimise over a small subset of the columns, add the columns whose constraint the
+    optimiser y violates most, repeat; a y that is optimal for the subset and feasible for all columns is optimal.
+    """
+    rows = [i for i, d in enumerate(demands) if d > 0]
+    if not rows:
+        return Fraction(0)
+    cols = sorted({tuple(c[i] for i in rows) for c in columns})
+    cols = [c for c in cols if any(c)]
+    m = len(rows)
+    dvec = [demands[i] for i in rows]
+    for j in range(m):
+        if not any(c[j] for c in cols):
+            return None  # dual unbounded in y_j
+    if len(cols) < direct_below:
+        res = _dual_lp(cols, dvec)
+        return None if res is None else res[0]
+    active = []
+    for j in range(m):  # bounds every y_j, so the restricted problems are bounded
+        c = max(cols, key=lambda c: (c[j], c))
+        if c not in active:
+            active.append(c)
+    while True:
+        val, y = _dual_lp(active, dvec)
+        viol = sorted(((sum(a * b for a, b in zip(c, y)), c) for c in cols), reverse=True)[:4]
+        new = [c for v, c in viol if v > 1 and c not in active]
+        if not new:
+            return val
+        active.extend(new)
 
 
 def ceil_frac(q: Fraction) -> int:
@@ -278,6 +308,8 @@ def selftest() -> int:
                 raise AssertionError(f"cutstock plan misses a demand: {W} {sizes} {dem} {plan}")
         pats = maximal_patterns(W, sizes)
         lp = lp_bound(pats, dem)
+        if lp != lp_bound(pats, dem, direct_below=0) or lp != lp_bound(pats, dem, direct_below=10**9):
+            raise AssertionError(f"LP direct vs constraint generation: W={W} sizes={sizes} dem={dem}")
         if lp is None or lp > a or ceil_frac(lp) < material_bound(W, sizes, dem) or lp != lp_bound(feasible_patterns(W, sizes), dem):
             raise AssertionError(f"cutstock LP bound out of order: W={W} sizes={sizes} dem={dem} lp={lp} opt={a}")
         if lp < Fraction(sum(s * d for s, d in zip(sizes, dem)), W):
